@@ -130,7 +130,7 @@ def _worker(args):
     mod = load(pid)
     agg = {"runs": 0, "nontrivial": 0, "digests": set(), "probes": {}, "faults": {},
            "sim_time": 0.0, "steps": 0, "samples": [], "viol": [], "err": None,
-           "all_digest": hashlib.blake2b(digest_size=8)}
+           "all_digest": hashlib.blake2b(digest_size=8), "verdict_digest": hashlib.blake2b(digest_size=8)}
     for k in range(k0, k1):
         rs = run_seed_of(base, k)
         try:
@@ -143,6 +143,7 @@ def _worker(args):
         if r[0] == "ok":
             info = r[1]
             agg["all_digest"].update(info["digest"].encode())
+            agg["verdict_digest"].update(b"ok;")
             if info.get("nontrivial"):
                 agg["nontrivial"] += 1
                 agg["digests"].add(info["digest"])
@@ -156,6 +157,7 @@ def _worker(args):
                 agg["samples"].append({"run_seed": rs, "case": info["sample"]})
         else:
             agg["all_digest"].update(("V:" + r[1]).encode())
+            agg["verdict_digest"].update(("V:" + r[1] + ";").encode())
             if len(agg["viol"]) < 4:
                 agg["viol"].append({"run_seed": rs, "sig": r[1], "msg": r[2],
                                     "plan": plan, "tape": r[3]})
@@ -163,6 +165,7 @@ def _worker(args):
                 agg["viol"].append({"run_seed": rs, "sig": r[1], "msg": r[2]})
     faulthandler.cancel_dump_traceback_later()
     agg["all_digest"] = agg["all_digest"].hexdigest()
+    agg["verdict_digest"] = agg["verdict_digest"].hexdigest()
     return agg
 
 
@@ -342,7 +345,7 @@ def sweep(pid, tier, base_seed, runs=None, jobs=None, budget_s=None, write_evide
         k += batch
 
     total = {"runs": 0, "nontrivial": 0, "digests": set(), "probes": {}, "faults": {},
-             "sim_time": 0.0, "steps": 0, "samples": [], "viol": [], "all": []}
+             "sim_time": 0.0, "steps": 0, "samples": [], "viol": [], "all": [], "verdicts": []}
     err = None
     stopped_early = False
     ctx = multiprocessing.get_context("fork")
@@ -377,6 +380,7 @@ def sweep(pid, tier, base_seed, runs=None, jobs=None, budget_s=None, write_evide
                         total["samples"] += agg["samples"]
                     total["viol"] += agg["viol"]
                     total["all"].append((order[fu], agg["all_digest"]))
+                    total["verdicts"].append((order[fu], agg["verdict_digest"]))
                 if err:
                     break
                 over = time.time() - t0 > budget_s
@@ -400,6 +404,7 @@ def sweep(pid, tier, base_seed, runs=None, jobs=None, budget_s=None, write_evide
 
     wall = time.time() - t0
     sweep_digest = digest_of(sorted(total["all"]))
+    verdict_digest = digest_of(sorted(total["verdicts"]))
 
     # ---- violations: group by signature, minimise, write replay, classify
     exit_code = 0
@@ -469,6 +474,7 @@ def sweep(pid, tier, base_seed, runs=None, jobs=None, budget_s=None, write_evide
                 "known_findings_matched": known_matched,
                 "violations_reported": reported,
                 "sweep_digest": sweep_digest,
+                "verdict_digest": verdict_digest,
                 "stopped_early_on_budget": stopped_early,
                 "jobs": jobs,
             },
@@ -482,9 +488,9 @@ def sweep(pid, tier, base_seed, runs=None, jobs=None, budget_s=None, write_evide
             json.dump(ev, f, indent=1, sort_keys=True)
 
     print("%s: %d runs (%d non-trivial, %d distinct) in %.1fs, %d violation signature(s), "
-          "%d known; sweep_digest=%s" %
+          "%d known; sweep_digest=%s verdict_digest=%s" %
           (pid, total["runs"], total["nontrivial"], len(total["digests"]), wall,
-           len(reported), len(known_matched), sweep_digest))
+           len(reported), len(known_matched), sweep_digest, verdict_digest))
     return exit_code
 
 
